@@ -14,6 +14,7 @@ pub static NS: crate::scen_hist::Ns = crate::scen_hist::Ns;
 pub static NEST: crate::scen_hist::Nest = crate::scen_hist::Nest;
 
 pub static DE: crate::scen_de::De = crate::scen_de::De;
+pub static DYN: crate::scen_dyn::DynScen = crate::scen_dyn::DynScen;
 pub static PIPE: crate::scen_pipe::Pipe = crate::scen_pipe::Pipe;
 
 /// property charged with a hang found by the watchdog in a plan of this scenario
@@ -22,7 +23,7 @@ pub fn panic_prop_of(scenario: &str) -> &'static str {
 }
 
 pub fn all_scenarios() -> Vec<&'static dyn Scenario> {
-    vec![&CHUNK, &SOUP, &FAULT, &SKIP, &NS, &NEST, &DE, &PIPE, &CORPUS, &CORPUSFAULT]
+    vec![&CHUNK, &SOUP, &FAULT, &SKIP, &NS, &NEST, &DE, &DYN, &PIPE, &CORPUS, &CORPUSFAULT]
 }
 
 const STUBS: &[&str] = &[
@@ -90,10 +91,11 @@ pub fn spec_for(prop: &str) -> Option<CheckSpec> {
             prop: "C12",
             level: "exploration",
             parts: vec![Part { scen: &SKIP, quick: 4_000_000, thorough: 100_000_000 }],
-            rule: "one case = (well-nested token document with repeated names, look-alike end tags in comments/CDATA/PIs/attribute values and blanks around tags; trim/expand/check switches; source kind and chunking; script of Read / Skip / ReadText calls; optional truncation point, injected I/O error or interrupt); distinct = Plan hash; non-trivial = at least one skip was made AND (a skipped element contains its own name as '</name' inside — nested same-name element or look-alike — or a failure path was taken)",
+            rule: "one case = (well-nested token document with repeated names, look-alike end tags in comments/CDATA/PIs/attribute values and blanks around tags; trim/expand/check switches; source kind and chunking; script of Read / Skip / ReadText / SkipUp(n) calls (SkipUp = read_to_end with the name of the n-th enclosing open element, at any point inside it); optional truncation point, injected I/O error or interrupt); distinct = Plan hash; non-trivial = at least one skip was made AND (a skipped element contains its own name as '</name' inside — nested same-name element or look-alike — or a failure path was taken)",
             assumptions: vec![
                 "element spans and matching end tags come from the generator's token list, not from the library",
                 "events after a skip are compared with a plain event-by-event read of the same bytes by the slice reader (skipping == reading and discarding)",
+                "SkipUp reads C12's 'the end tag that closes that element (counting nested elements of the same name)' for a name passed later than directly after the Start: expected end = end tag of the innermost open element of that name; only span end, position and the following events are judged (plain Reader only; NsReader documents the call for directly after Start)",
                 "trim_markup_names_in_closing_tags stays on (with it off the documentation itself says names with blanks do not match)",
             ],
             real: real_reader,
@@ -106,7 +108,7 @@ pub fn spec_for(prop: &str) -> Option<CheckSpec> {
             rule: "one case = (well-formed token document over 3 prefixes / 3 URIs with declarations, re-declarations, xmlns=\"\", xmlns:p=\"\" and shadowing; expand-empty on/off; source kind and chunking; script of Read / ReadResolved / Skip / ReadText calls); after EVERY call 14 probe names (7 prefixes x element/attribute) and the prefixes() listing are compared with the scope model; distinct = Plan hash; non-trivial = at least one declaration was in play AND (at least one skip or at least one shadowing)",
             assumptions: vec![
                 "the scope model is computed from the generator's token list (declarations per element), never from the library's output",
-                "documents are well-formed; 1 in 15 carries one declaration that touches the reserved xml/xmlns prefixes or namespaces: the matching NamespaceError is expected at that element and the run ends there",
+                "documents are well-formed; 1 in 15 carries one declaration that touches the reserved xml/xmlns prefixes or namespaces, as first or last attribute of its tag: for the illegal ones the matching NamespaceError is expected at that element and the run ends there; the legal re-statement of xmlns:xml must change nothing, in particular not the declarations after it",
             ],
             real: real_reader,
             stub: STUBS.to_vec(),
@@ -115,7 +117,7 @@ pub fn spec_for(prop: &str) -> Option<CheckSpec> {
             prop: "C04",
             level: "exploration",
             parts: vec![Part { scen: &NEST, quick: 4_000_000, thorough: 100_000_000 }],
-            rule: "one case = (sequence of well-formed tokens over names a/ab/b/a:b incl. end tags with trailing blanks or attributes and <x/>; initial values of the 4 related switches; script of Read calls with 0-8 switch flips at arbitrary points; source kind and chunking); every outcome is judged by a nondeterministic open-element-stack model; distinct = Plan hash; non-trivial = an end tag was judged while depth >= 2 or after at least one flip",
+            rule: "one case = (sequence of well-formed tokens over names a/ab/b/a:b incl. end tags with trailing blanks or attributes and <x/>; initial values of the 4 related switches; script of Read calls with 0-8 switch flips at arbitrary points; source kind and chunking); 1 in 8 documents is written in windows-1251 with a declaration and non-ASCII element names (also run against the `encoding` build); every outcome is judged by a nondeterministic open-element-stack model over name BYTES, the names inside the errors are rendered with the reader's own decoder(); distinct = Plan hash; non-trivial = an end tag was judged while depth >= 2 or after at least one flip",
             assumptions: vec![
                 "where the property is silent (does a non-matching end tag close the element?) the model keeps both successor states; an outcome is a violation only if no candidate stack allows it",
                 "text trimming and comment checking are off so that every token yields exactly one outcome",
@@ -126,22 +128,25 @@ pub fn spec_for(prop: &str) -> Option<CheckSpec> {
         "C14" => Some(CheckSpec {
             prop: "C14",
             level: "exploration",
-            parts: vec![Part { scen: &DE, quick: 4_000_000, thorough: 150_000_000 }],
-            rule: "one case = (target type of a 40-type family, UTF-8 document: serializer output of a generated value / 1-3 token-level mutations / token soup / truncation, source kind SimBufRead or std BufReader(cap), cut set); from_str and from_reader must both fail or both succeed with equal values; distinct = Plan hash; non-trivial = at least one piece boundary strictly inside markup, or from_str fails (then from_reader must fail too); evidence also reports how many cases had a boundary inside markup AND a successful from_str",
+            parts: vec![Part { scen: &DE, quick: 4_000_000, thorough: 150_000_000 }, Part { scen: &DYN, quick: 2_000_000, thorough: 75_000_000 }],
+            rule: "one case = (target type of a 40-type family, UTF-8 document: serializer output of a generated value / 1-3 token-level mutations / token soup / truncation, source kind SimBufRead or std BufReader(cap), cut set); from_str and from_reader must both fail or both succeed with equal values; distinct = Plan hash; non-trivial = at least one piece boundary strictly inside markup, or from_str fails (then from_reader must fail too); evidence also reports how many cases had a boundary inside markup AND a successful from_str. Scenario `dyn`: the target type itself is generated per case (a Shape tree over all 29 serde data-model kinds, interpreted by one DeserializeSeed that asks the deserializer exactly what derive-generated code of that shape asks), the document is generated to fit the shape and then mutated; the value compared is the trace of everything the visitors were shown",
             assumptions: vec![
                 "only the chunking is varied (no interrupts, no I/O errors): exactly what C14 states",
-                "values are compared with PartialEq; error values are not compared",
+                "values are compared with PartialEq (dyn: visitor traces with ==); error values are not compared",
+                "dyn: shapes containing &str / &[u8] are not owned types and are excluded from the comparison (still run for C07)",
                 "documents never declare a non-UTF-8 encoding",
             ],
-            real: vec!["quick_xml::de::{from_str, from_reader} (Deserializer, XmlReader, IoReader, SliceReader)", "quick_xml::se::to_string (workload only)", "std::io::BufReader", "serde derive-generated visitors of the type family"],
-            stub: STUBS.to_vec(),
+            real: vec!["quick_xml::de::{from_str, from_reader} (Deserializer, XmlReader, IoReader, SliceReader)", "quick_xml::se::to_string (workload only)", "std::io::BufReader", "serde derive-generated visitors of the type family", "serde's own Deserialize impls for primitives, String, IgnoredAny (dyn leaves)"],
+            stub: vec![STUBS[0], STUBS[2], "dyn: the target type (a Shape interpreter following derive's visitor protocol)"],
         }),
         "C07" => Some(CheckSpec {
             prop: "C07",
             level: "exploration",
-            parts: vec![Part { scen: &DE, quick: 4_000_000, thorough: 150_000_000 }],
-            rule: "same cases as C14 (both entry points are executed for every case); a panic from library code or an exceeded source-call budget / wall-clock watchdog is a violation; distinct = Plan hash; non-trivial = the document is not accepted by from_str (mutated / wrong shape / truncated) or is cut inside markup",
+            parts: vec![Part { scen: &DE, quick: 4_000_000, thorough: 150_000_000 }, Part { scen: &DYN, quick: 2_000_000, thorough: 75_000_000 }],
+            rule: "same cases as C14 (both entry points are executed for every case); a panic from library code or an exceeded source-call budget / wall-clock watchdog is a violation; distinct = Plan hash; non-trivial = the document is not accepted by from_str (mutated / wrong shape / truncated) or is cut inside markup. Scenario `dyn` adds generated target types (see C14): every deserialize_* entry point of the Deserializer and every access protocol (SeqAccess, MapAccess with identifier keys, EnumAccess with unit/newtype/tuple/struct variants) is driven with shapes no fixed family contains",
             assumptions: vec![
+                "dyn: the generated visitors keep to serde's protocol (next_value after next_key, one variant access per variant_seed, early return only with an error)",
+                "dyn: bounded time also = visitor callbacks <= 8*len+256 per call",
                 "panic attribution: a panic whose location is outside /verif/sim is charged to the library",
                 "bounded time = source calls <= 4*(12*len+128), sequence elements produced <= 4*len+64 (counted by a wrapper type around every sequence element of the family), and a wall-clock watchdog (30 s + 1 s per 5 KB of document) per case",
                 "inputs are sampled, not enumerated",
@@ -153,7 +158,7 @@ pub fn spec_for(prop: &str) -> Option<CheckSpec> {
             prop: "C09",
             level: "exploration",
             parts: vec![Part { scen: &PIPE, quick: 1_500_000, thorough: 50_000_000 }],
-            rule: "one case = (sequence of <= 12 builder calls with in-place edits and markup-heavy payloads, indentation or none, pipe capacity, per-call accepted lengths, write/read Pending patterns, reader piece sizes, executor choice stream, optional write-error point); writer task and reader task run interleaved over the simulated pipe; distinct = Plan hash; non-trivial = the reader task found the pipe empty while the writer was not finished (an event was only partly delivered) AND at least one short write or back-pressure Pending occurred, or a write error was injected",
+            rule: "one case = (sequence of <= 12 builder calls with in-place edits and markup-heavy payloads; a tag starts as BytesStart::new, BytesStart::from_content (owned/borrowed), a Start event handed out by a Reader, or template.borrow(); indentation or none, pipe capacity, per-call accepted lengths, write/read Pending patterns, reader piece sizes, executor choice stream, optional write-error point); writer task and reader task run interleaved over the simulated pipe; distinct = Plan hash; non-trivial = the reader task found the pipe empty while the writer was not finished (an event was only partly delivered) AND at least one short write or back-pressure Pending occurred, or a write error was injected",
             assumptions: vec![
                 "preconditions of the constructors are enforced by predicates on the final strings (names legal, PI without '?>', comment without '--', doctype non-empty/balanced, CDATA::new without ']]>')",
                 "read-back equality is checked without indentation only; with indentation only byte equality async == sync is checked (that part of C19 lives in the async copy of the writer table)",
